@@ -121,6 +121,9 @@ pub fn feed_chunked(file: &[u8], cuts: &[usize], o: &DecodeOpts, mut on_step: im
         }
         on_step(image.as_mut(), fed)?;
     }
+    if std::env::var_os("VERIF_DEBUG").is_some() {
+        eprintln!("feed_chunked: cuts={} fed={} left-unconsumed={} image={}", cuts.len(), fed, pending.len(), image.is_some());
+    }
     if let Some(img) = image.as_mut() {
         img.finalize().map_err(|e| format!("finalize: {e}"))?;
     }
